@@ -28,11 +28,11 @@ ASSUMPTIONS = [
 BUDGET = {"quick": 60, "thorough": 500}
 ROUNDS = {"thorough": 10}
 FLOORS = {"loads": {"quick": 1500, "thorough": 15000}, "expected_reject": 400, "expected_accept": 400, "graph_walks": 300,
-          "sharing_updates": 150, "factory_round_trips": 60, "faults": 16, "loads_through_main": 100, "reference_identity_checks": {"quick": 2000, "thorough": 20000}}
+          "sharing_updates": 150, "factory_round_trips": 60, "faults": 19, "derived_parameters_consistent": {"quick": 300, "thorough": 3000}, "loads_through_main": 100, "reference_identity_checks": {"quick": 2000, "thorough": 20000}}
 
 FAULTS = ["none", "none", "dup-sibling", "dup-cousin", "dup-ancestor", "dup-toplevel", "dup-taxon-parameter", "dangling", "forward",
           "range-missing", "range-ok", "comments", "ignored", "plate", "nested-plate", "ignored-plate",
-          "group", "datatype-dangling", "datatype-ok", "shared-transform-argument", "shared-hyperparameter"]
+          "group", "datatype-dangling", "datatype-ok", "shared-transform-argument", "shared-hyperparameter", "dup-tree-taxa", "tree-ok", "keep-shared-heights"]
 
 
 def cases(tier, seed):
@@ -145,7 +145,8 @@ def parents(top):
 
 
 # ---------------------------------------------------------------- reference interpreter
-REF_SLOTS = {"BayesianBridge": ["x", "scale", "local_scale", "slab", "alpha"], "Alignment": ["datatype", "taxa"], "ViewParameter": ["parameter"], "TransformedParameter": ["x", "parameters"], "CatParameter": ["parameters"], "Distribution": ["x", "parameters"],
+TREE_SLOTS = ["taxa", "internal_heights", "branch_lengths", "ratios", "root_height", "shifts"]
+REF_SLOTS = {"TimeTreeModel": TREE_SLOTS, "FlexibleTimeTreeModel": TREE_SLOTS, "UnRootedTreeModel": TREE_SLOTS, "ReparameterizedTimeTreeModel": TREE_SLOTS, "BayesianBridge": ["x", "scale", "local_scale", "slab", "alpha"], "Alignment": ["datatype", "taxa"], "ViewParameter": ["parameter"], "TransformedParameter": ["x", "parameters"], "CatParameter": ["parameters"], "Distribution": ["x", "parameters"],
              "JointDistributionModel": ["distributions"], "Taxa": ["taxa"]}
 
 
@@ -487,6 +488,40 @@ def run_case(case):
         else:
             top = top + [taxa, aln, dt]  # defined only later in the file
         effective = top
+    elif fault in ("dup-tree-taxa", "tree-ok", "keep-shared-heights"):
+        # a tree model with its taxa (and their Taxon entries) defined inline: ids are ids, whatever the class of the holder
+        klass = ["TimeTreeModel", "FlexibleTimeTreeModel", "UnRootedTreeModel", "ReparameterizedTimeTreeModel"][case["seed"] % 4]
+        taxa = {"id": "taxa1", "type": "Taxa", "taxa": [{"id": nm, "type": "Taxon", "attributes": {"date": 0.0}} for nm in ("A", "B", "C")]}
+        tree = {"id": "tr1", "type": klass, "newick": "((A:0.3,B:0.3):0.4,C:0.7);", "taxa": taxa}
+        if klass == "UnRootedTreeModel":
+            tree["branch_lengths"] = {"id": "bl1", "type": "Parameter", "tensor": [0.1, 0.1, 0.1]}
+        elif klass == "ReparameterizedTimeTreeModel":
+            tree["ratios"] = {"id": "rt1", "type": "Parameter", "tensor": [0.5]}
+            tree["root_height"] = {"id": "rh1", "type": "Parameter", "tensor": [1.0]}
+        else:
+            tree["internal_heights"] = {"id": "ih1", "type": "Parameter", "tensor": [0.4, 0.9]}
+        if fault == "dup-tree-taxa":
+            how = case["seed"] % 3
+            if how == 0:
+                taxa["id"] = "tr1"  # the Taxa object takes the id of the tree model that holds it
+            elif how == 1:
+                taxa["taxa"][1]["id"] = "tr1"  # a taxon named like the tree model
+                tree["newick"] = tree["newick"].replace("B", "tr1")
+            else:
+                taxa["taxa"][2]["id"] = "taxa1"  # a taxon named like the Taxa object
+                tree["newick"] = tree["newick"].replace("C", "taxa1")
+            top = top + [tree]
+        elif fault == "keep-shared-heights" and klass in ("TimeTreeModel", "FlexibleTimeTreeModel"):
+            # the heights are a parameter defined earlier which something else already holds (and has computed from); the tree model
+            # takes its heights from the Newick: every holder sees those
+            ih = tree.pop("internal_heights")
+            tree["internal_heights"] = "ih1"
+            tree["keep_branch_lengths"] = True
+            top = top + [ih, {"id": "ih1.log", "type": "TransformedParameter", "transform": "LogTransform", "x": "ih1"},
+                         {"id": "ih1.cat", "type": "CatParameter", "parameters": ["ih1", {"id": "extra1", "type": "Parameter", "tensor": [5.0]}], "dim": -1}, tree]
+        else:
+            top = top + [tree]
+        effective = top
     elif fault == "shared-hyperparameter":
         # hyper-parameters of a shrinkage prior given as references to parameters that their own hyper-priors hold too
         jt = [d for t in top for d in walk_defs(t) if d["id"] == jid][0]
@@ -567,6 +602,24 @@ def run_case(case):
             C["sharing_updates"] += 1
             if abs(v1 - v2) > 1e-9 * max(1.0, abs(v2)):
                 V.append(tt.viol("C13:update-not-shared", "after updating %s through the registry the joint is %.12g, a rebuilt specification gives %.12g" % (pid, v1, v2), updated=pid, **detail))
+        # (a'') after loading, every derived parameter is what its definition says about the current values of what it derives from
+        from torchtree.core.parameter import CatParameter, TransformedParameter
+
+        for oid, o in list(dic.items()):
+            try:
+                if isinstance(o, TransformedParameter) and type(o.transform).__name__ in ("ExpTransform", "LogTransform", "AffineTransform", "SigmoidTransform"):
+                    want = o.transform(o.x.tensor)
+                elif isinstance(o, CatParameter):
+                    want = torch.cat([q.tensor for q in o._parameter_container.params()], o._dim)
+                else:
+                    continue
+            except Exception:
+                continue
+            C["derived_parameters_consistent"] = C.get("derived_parameters_consistent", 0) + 1
+            got_t = o.tensor
+            if tuple(got_t.shape) != tuple(want.shape) or not bool(torch.allclose(got_t, want, rtol=1e-12, atol=0.0, equal_nan=True)):
+                V.append(tt.viol("C13:derived-parameter-stale-after-load:%s" % type(o).__name__, "after loading, %s `%s' holds %s while its definition applied to the current values gives %s" % (type(o).__name__, oid, got_t.reshape(-1)[:4].tolist(), want.reshape(-1)[:4].tolist()), **detail))
+                break
         # (a') every reference written as a string resolves to the registry instance *inside the object that holds it*
         def holds(obj, target, depth=0):
             if obj is target:
@@ -587,6 +640,8 @@ def run_case(case):
                 continue
             for slot in REF_SLOTS.get(ddef["type"], []):
                 vals = ddef.get(slot)
+                if isinstance(vals, dict) and "id" in vals and "type" in vals:
+                    continue  # an inline definition, not a reference
                 vals = list(vals.values()) if isinstance(vals, dict) else (vals if isinstance(vals, list) else [vals])
                 for ref in vals:
                     if isinstance(ref, str) and "{" not in ref and ref in dic and ref != "nucleotide":
